@@ -78,7 +78,7 @@ func checkC06(c *vk.Ctx) {
 
 func checkC07(c *vk.Ctx) {
 	c.Rule = "random request sequences over valid, unauthorised, $SYS and invalid-filter targets, QoS 0-2, v3.1.1 and v5, with an ACL relation that denies ~25% of accesses: every PUBLISH QoS1/2, PUBREL, SUBSCRIBE, UNSUBSCRIBE, PINGREQ on a connection that stays open must be answered by the matching packet type " +
-		"with the request's packet id, and SUBACK/UNSUBACK must carry one code per filter. nontrivial = histories with >=1 acknowledged request"
+		"with the request's packet id, and SUBACK/UNSUBACK must carry one code per filter; a third series gives the clients a Maximum Packet Size of 18-30 bytes (acknowledgements that would not fit must be shortened or answered by closing the connection). nontrivial = histories with >=1 acknowledged request"
 	p := deliveryProfile()
 	p.Name = "reqresp"
 	p.Versions = []byte{4, 5, 5}
@@ -105,6 +105,17 @@ func checkC07(c *vk.Ctx) {
 	h2 := &histRun{Prop: "C07", Profile: &p2, N: c.N(300, 8000), Label: 702, Nontrivial: []string{"pubrel_with_colliding_id"}}
 	h2.run(c)
 	c.MinEvents["pubrel_with_colliding_id"] = 100
+	// third profile: clients that announce a small Maximum Packet Size, so that acknowledgements (failure codes come
+	// with reason strings, user properties are echoed, SUBACKs grow with the number of filters) may not fit: the broker
+	// must still answer (with a packet that fits) or close the connection, never carry on without answering
+	p3 := *p
+	p3.Name = "reqresp-mps"
+	p3.Versions = []byte{5}
+	p3.MPS = []uint32{18, 22, 30, 0}
+	p3.PropsPct = 60
+	p3.MultiFilter = true
+	h3 := &histRun{Prop: "C07", Profile: &p3, N: c.N(300, 8000), Label: 703, Nontrivial: []string{"rx_PUBACK", "rx_SUBACK"}, Rules: []string{"C07/", "C23/exceeds-maximum-packet-size"}}
+	h3.run(c)
 	c07Probes(c)
 }
 
